@@ -82,12 +82,18 @@ def ks_copy(ctx, args, st):
     if op in ('into_string', 'into_cow_str'): ty = 'String'
     elif op.startswith('to_owned') or op == 'into_owned': ty = 'KString'
     else: ty = ks_type(ctx.callee)
-    return ret(st, StrV(str_of(st, args[0]).chars, ty))
+    return ret(st, str_of(st, args[0]).retag(ty))
 
 
-@model(r'^' + KS + r'(as_str|as_ref)$|^<(?:kstring::\w+::)?KString\w*(?:<.*>)? as (?:Deref|AsRef<str>|Borrow<str>)>::(deref|as_ref|borrow)$')
+@model(r'^' + KS + r'(as_str)$|^<(?:kstring::\w+::)?KString\w*(?:<.*>)? as (?:Deref|AsRef<str>|Borrow<str>)>::(deref|as_ref|borrow)$')
 def ks_as_str(ctx, args, st):
-    return ret(st, str_ref(st, args[0]))
+    # &str view: a fresh immutable copy tagged 'str' (shared references cannot observe the difference)
+    return ret(st, st.ref(str_of(st, args[0]).retag('str')))
+
+
+@model(r'^' + KS + r'as_ref$')
+def ks_as_ref(ctx, args, st):
+    return ret(st, str_of(st, args[0]).retag('KStringRef'))
 
 
 @model(r'^<&?(?:kstring::\w+::)?KString\w*(?:<.*>)? as (?:Into|From)<.*>>::(into|from)$|^<.* as (?:Into|From)<(?:kstring::\w+::)?KString\w*(?:<.*>)?>>::(into|from)$')
@@ -96,24 +102,26 @@ def ks_into(ctx, args, st):
     m = re.search(r' as Into<(.*)>>::into$', ctx.callee, re.S) or re.match(r'^<(.*) as From<', ctx.callee, re.S)
     tgt = m.group(1) if m else ''
     ty = ks_type(tgt) if 'KString' in tgt else ('String' if 'String' in tgt else 'KString')
-    if isinstance(t, StrV): return ret(st, StrV(t.chars, ty))
+    if isinstance(t, StrV): return ret(st, t.retag(ty))
     return None
 
 
 @model(r'^<&?(?:kstring::\w+::)?KString\w*(?:<.*>)? as (?:Clone|ToString|ToOwned)>::(clone|to_string|to_owned)$')
 def ks_clone(ctx, args, st):
     op = ctx.callee.rsplit('::', 1)[-1]
-    return ret(st, StrV(str_of(st, args[0]).chars, 'String' if op == 'to_string' else ks_type(ctx.callee)))
+    return ret(st, str_of(st, args[0]).retag('String' if op == 'to_string' else ks_type(ctx.callee)))
 
 
 @model(r'^<(?:String|str|&str|&String|Box<str>|Cow<\'_, str>) as (?:Clone|ToString|ToOwned|Into<String>|From<&str>|From<String>|Into<Box<str>>)>::(clone|to_string|to_owned|into|from)$|^(?:std::string::|alloc::string::)?String::from_str$|^str::<impl str>::(to_owned|to_string)$|^(?:alloc|std)::str::<impl str>::(to_owned|to_string|into_string|into_boxed_str)$')
 def string_copy(ctx, args, st):
-    return ret(st, StrV(str_of(st, args[0]).chars, 'String'))
+    return ret(st, str_of(st, args[0]).retag('String'))
 
 
 @model(r'^<String as (?:Deref|AsRef<str>|Borrow<str>)>::(deref|as_ref|borrow)$|^String::(as_str|as_mut_str)$|^<str as AsRef<str>>::as_ref$|^<&str as AsRef<str>>::as_ref$|^<Box<str> as Deref>::deref$|^<Cow<\'_, str> as Deref>::deref$')
 def string_deref(ctx, args, st):
-    return ret(st, str_ref(st, args[0]))
+    if 'mut' in ctx.callee.rsplit('::', 1)[-1]:
+        return ret(st, str_ref(st, args[0]))
+    return ret(st, st.ref(str_of(st, args[0]).retag('str')))
 
 
 @model(r'^String::new$|^<String as Default>::default$')
